@@ -131,6 +131,10 @@ func (upc *BroadcastRawUDPConn) ReadFrom(b []byte) (int, net.Addr, error) {
 		// Extra padding after end of IP packet should be ignored,
 		// if not dhcp option parsing will fail.
 		dhcpLen := int(ipHdr.payloadLength()) - udpHdrLen
+		if dhcpLen < 0 {
+			// The IP total length leaves no room for the UDP header.
+			continue
+		}
 		return copy(b, buf.Consume(dhcpLen)), srcAddr, nil
 	}
 }
